@@ -189,9 +189,12 @@ func runRevs(tip bool, bl []blockSpec, gen string) vh.Case {
 func (g gen) genRev(emit func(vh.Case)) {
 	e := g.e
 	for _, tip := range []bool{false, true} {
-		sizes := []int{0, 1, 2, 9, 63, 64, 500, 1000, 1023, 1024, 1024}
-		reps := e.Scale(2, 30)
+		sizes := []int{0, 1, 2, 9, 63, 64, 1000, 1023, 1024}
 		for _, k := range sizes {
+			reps := e.Scale(2, 12)
+			if k >= 1000 { // the monitor compares 1024 positions against the member list several times: keep the long lists few
+				reps = e.Scale(1, 4)
+			}
 			for r := 0; r < reps; r++ {
 				var st uint32
 				if tip {
@@ -247,7 +250,7 @@ func (g gen) genRev(emit func(vh.Case)) {
 			}
 		}
 		// list forms: empty, one element, several
-		for r := 0; r < e.Scale(12, 150); r++ {
+		for r := 0; r < e.Scale(12, 90); r++ {
 			nb := []int{0, 1, 1, 2, 3, 4}[r%6]
 			bl := make([]blockSpec, nb)
 			for i := range bl {
